@@ -2347,12 +2347,13 @@ void copy_api_from_app(
 
     scs_ptr->static_config.vbv_bufsize = ((EbSvtAv1EncConfiguration*)config_struct)->vbv_bufsize;
 
+    // lossless coding (qp 0 -> qindex 0) is not supported: the smallest qp the rate control may pick is 1
     scs_ptr->static_config.max_qp_allowed = (scs_ptr->static_config.rate_control_mode) ?
-        ((EbSvtAv1EncConfiguration*)config_struct)->max_qp_allowed :
+        MAX(1, ((EbSvtAv1EncConfiguration*)config_struct)->max_qp_allowed) :
         63;
 
     scs_ptr->static_config.min_qp_allowed = (scs_ptr->static_config.rate_control_mode) ?
-        ((EbSvtAv1EncConfiguration*)config_struct)->min_qp_allowed :
+        MAX(1, ((EbSvtAv1EncConfiguration*)config_struct)->min_qp_allowed) :
         1; // lossless coding not supported
     scs_ptr->static_config.vbr_bias_pct        = ((EbSvtAv1EncConfiguration*)config_struct)->vbr_bias_pct;
     scs_ptr->static_config.vbr_min_section_pct = ((EbSvtAv1EncConfiguration*)config_struct)->vbr_min_section_pct;
